@@ -95,6 +95,24 @@ def boundary_texts(ctx, C, bases, moduli=(64,), pad="x;\n"):
     return out
 
 
+def joint_alias_texts(quick=True):
+    """the parser's jointness bits are stored in machine words: a bit read for token i must be the bit of token i,
+    not of i +/- 8, 16, 32, 64, 128.  (1) every token glued to the next (all bits set) except ONE spaced pair of
+    operator characters at position j — the pair must stay two tokens; (2) every token spaced except ONE glued pair —
+    it must be one composite.  j sweeps more than two words."""
+    pairs = [("=", "="), ("<", "="), (">", ">"), ("-", ">"), ("&", "&"), ("|", "|"), ("+", "="), ("<", "<"), ("*", "*"), ("!", "=")]
+    out = []
+    unit_glued, unit_spaced = "a[0];", "a [ 0 ] ; "
+    step = 3 if quick else 1
+    for k, (x, y) in enumerate(pairs if not quick else pairs[:6]):
+        for j in range(0, 45 if quick else 60, step):
+            pre, post = j, 30 - (j % 30) + 3
+            out.append(unit_glued * pre + f"b{x} {y}1;" + unit_glued * post)
+            out.append(unit_glued * pre + f"if(c{x} {y}1){{a[0];}}" + unit_glued * post)
+            out.append(unit_spaced * pre + f"b {x}{y} 1 ; " + unit_spaced * post)
+    return out
+
+
 def nesting_texts(depths=(1, 2, 10, 63, 64, 65, 200)):
     """unclosed and closed nests of every bracketing construct up to the nesting bound of DESIGN §6 (200): the
     parser unwinds k levels at end of input without consuming a token"""
